@@ -524,6 +524,11 @@ class Node:
 class KNode:
     name: str
     peer: Any = None
+@spec_class
+class URepr:
+    x: int = 0
+    def __repr__(self):          # a user-written repr that takes no rendering options
+        return "URepr!"
 '''
     exec(compile(src, "<c10-selfref>", "exec", dont_inherit=True), ns)
     Node, KNode = ns["Node"], ns["KNode"]
@@ -560,6 +565,13 @@ class KNode:
         elif kind == "list_dict_cycle":
             a.kids.append(a.table)
             a.table["k"] = a.kids
+        elif kind == "spec_class_as_value":
+            a.anyv = KNode               # the CLASS object itself (it has __spec_class__ and a __repr__ too)
+        elif kind == "spec_classes_in_list":
+            a.kids = [KNode, Node, int]
+        elif kind == "nested_user_repr":
+            a.anyv = ns["URepr"]()
+            a.kids = [ns["URepr"](x=1)]
         elif kind == "missing_values":
             a = Node()
         elif kind == "bound_method_of_self":
@@ -569,7 +581,7 @@ class KNode:
         return a
 
     for kind in ("direct", "in_list", "in_any_list", "in_dict", "mutual", "mutual_keyed", "triangle", "list_in_itself", "dict_in_itself",
-                 "list_in_itself_long", "list_dict_cycle", "missing_values",
+                 "list_in_itself_long", "list_dict_cycle", "spec_class_as_value", "spec_classes_in_list", "nested_user_repr", "missing_values",
                  "bound_method_of_self", "bound_method_of_other"):
         for kwargs in ({}, {"indent": True}, {"indent": False}, {"compact": True}):
             C.inc("states")
@@ -584,7 +596,7 @@ class KNode:
             except BaseException as e:
                 C.viol(violation(PROP, {"part": "selfref", "kind": "repr_raised", "structure": kind, "error": type(e).__name__},
                                  {"error": repr(e)[:200], "kwargs": kwargs}, {"part": "selfref", "structure": kind, "kwargs": kwargs}))
-    C.sample({"part": "selfref", "structures": 14})
+    C.sample({"part": "selfref", "structures": 17})
     return C.rec
 
 
